@@ -104,6 +104,7 @@ func (p *Parser) parseTransaction() *ast.Transaction {
 
 	if p.current.Type == TokenText {
 		desc := p.current.Value
+		tx.DescriptionPos = toASTPosition(p.current.Pos)
 		p.advance()
 
 		if p.current.Type == TokenPipe {
